@@ -20,7 +20,10 @@ RULE = ("seeded generator. TCP: ~30 byte streams (HTTP requests with/without Hos
         "line, 300 KB header block beyond the 256 KiB limit, malformed/lower-case/3-letter-only requests; TLS ClientHellos with/without SNI, "
         "record length field shortened/lengthened/zero, 0x17 records, two records, the suite's own capture; garbage, 0/1/2-byte streams) x "
         "scripts (whole, all 2-way splits of the first 64 bytes and all 3-way splits of the first 13 (thorough: 64) bytes for five streams, a "
-        "deadline/EOF/reset error at every position of the first 48 (thorough: 64) bytes with and without accompanying data, zero-length reads, 150 consecutive empty reads, random chunkings) "
+        "deadline/EOF/reset error at every position of the first 48 (thorough: 64) bytes with and without accompanying data, zero-length reads, 150 consecutive empty reads, random chunkings); "
+        "LONG first flights: TLS records (ClientHello with/without server name filled by a padding extension, 0x17 records, a lying length field) with bodies of 1023..65535 bytes "
+        "and HTTP header blocks of 4094..262147 bytes (around bufio's 4096, 32 KiB, 64 KiB, the 256 KiB limit; Host first or last), aperiodic contents, cut by a deadline/EOF/reset "
+        "just before, at and just after every multiple of 1024 (TLS body) / 4096 (HTTP), in the middle of a step, at the last byte of the record / block and behind it, delivered whole or in segments "
         "x request addresses (v4, [v6], domain, without port) and a failing SetReadDeadline. TCP histories of 2..12 hooked streams on one Sniffer "
         "(every ordered pair of flow kinds TLS/HTTP/unrecognised/short: A sniffed, then B, then A's replay looked at; random interleavings of "
         "sniff and look-at events; concurrent sniffing, thorough tier also under -race): every stream's replay ++ unread = sent when looked at "
@@ -31,7 +34,10 @@ RULE = ("seeded generator. TCP: ~30 byte streams (HTTP requests with/without Hos
         "odd first bytes, unsupported versions), every truncation of a valid packet, bit flips, the suite's capture, garbage, empty. Check: "
         "address shapes (v4, [v6], zone, domain, '@', no port, signed/oversized/non-numeric ports, bracket errors) x RewriteDomain x port "
         "filters x tcp/udp. Non-trivial = the sniffer got past the 3-byte probe or the script has >1 entry (TCP), a CRYPTO payload was "
-        "recovered (UDP), the address splits (Check). Distinct = distinct JSON case.")
+        "recovered (UDP), the address splits (Check). SERVER side (kind srv, core/internal/integration_tests): a real client and server over loopback QUIC with a RequestHook that "
+        "takes put = 0..270 KiB off the stream and hands it back (sizes around the 32 KiB copy buffer, 64 KiB+5, 256 KiB), x rest of the stream x TrafficLogger on/off x fast open on/off x "
+        "client write sizes x address rewrite x slow dial x data flowing down; the client finishes first, judged when the server has closed the target connection: the target holds exactly "
+        "what the client wrote, was dialled at the hook's address, StreamStats.Tx = bytes delivered, LogTraffic totals between delivered - put and delivered. Distinct = distinct JSON case.")
 ASSUMPTIONS = [
     "bufio.Reader + http.ReadRequest, utls.UnmarshalClientHello, AES/AES-GCM/HKDF, net.ParseIP and strconv.Atoi are oracles: any read "
     "pattern / any answer is covered by the theorems, but that the Host/SNI they report is really the one in the bytes is their specification",
@@ -40,9 +46,13 @@ ASSUMPTIONS = [
     "HyStream.Read returns at most len(p) bytes (io.Reader contract); a fired deadline keeps failing until it is reset",
     "sort.Slice returns a permutation of its input (the never-panics theorem needs nothing more; the executable model uses a stable "
     "insertion sort, which is what sort.Slice does for <= 12 frames or distinct offsets)",
+    "server side: the target connection's Write keeps the io.Writer contract and the direct write of the putback reports no error (the code drops "
+    "that error: C17_server_putback_write_error_is_dropped); the hook hands back exactly what it took off the stream (the sniffer theorems)",
 ]
 TRUSTED = ["modelled rather than verified: extras/sniff/sniff.go and extras/sniff/internal/quic/{header,payload,packet_protector}.go "
-           "(hand transcription in coq/model/C17_Sniff.v); net.SplitHostPort/JoinHostPort are transcribed and tied by the Check cases"]
+           "(hand transcription in coq/model/C17_Sniff.v); net.SplitHostPort/JoinHostPort are transcribed and tied by the Check cases",
+           "core/server/server.go handleTCPRequest (hooked path) in coq/model/C17_Putback.v on top of C06's relay LTS (coq/model/C06_Relay.v, buffer size from gen/ParamsC06.v); "
+           "tied by replaying the observed Write sizes / LogTraffic arguments / StreamStats of real client+server runs"]
 PER_SHARD = 400
 EXTRA_TARGETS = ["corr/C17_Corr.vo"]
 
@@ -1041,7 +1051,8 @@ LEVEL_TEXT = ("Machine-checked Coq theorems over a statement-by-statement Gallin
               "position), every consumer read pattern and every library answer, replay ++ unread = sent; the address is the old one or "
               "join(Host/SNI, old port); assembleCryptoFrames returns a single frame's data or the data of frames that follow one another without "
               "hole or overlap (never a zero-filled gap); the caller's datagram buffer is never written; Check's filter; no slice/index/make of the QUIC and "
-              "TLS-length code can panic for any byte string. The model is tied to /repo on every run by a differential run of the Go code "
+              "TLS-length code can panic for any byte string; server side: on every run of the hooked path of handleTCPRequest over the relay LTS (all interleavings, any putback length) "
+              "the target's stream is the putback followed by a prefix of the client's stream (all of it when Up returns nil), no relay action precedes the putback write, StreamStats.Tx counts the putback. The model is tied to /repo on every run by a differential run of the Go code "
               "against the model on ~4000 cases in the quick tier, ~53000 in the thorough tier (vm_compute in the kernel), the library oracles' answers being computed independently in the harness.")
 LEVEL_NOTE = ("Trusted: Coq kernel + vm_compute; hand-written model (tie is sampled differential testing + regenerated Params); python/Go glue. "
               "No axioms. Not proved: the parsers/crypto themselves (oracles); bufio's first read >= 3 bytes is a hypothesis of tcp_transparent.")
